@@ -41,6 +41,18 @@ FAULT_PROG = {
     "disc": ["discA", "waitDisc"],
 }
 SMALL_MAX = 3000
+# bystander classes: (object, route).  The main scenario uses object o through srv itself ("loc") or client cli ("rem").
+BY_CLASSES = ["o2loc", "o2rem", "cli2", "cli2o2"]
+
+
+def project_fault(fault, cls):
+    """the fault of the scenario as seen by a bystander class (other object and/or other client connection)"""
+    if fault in ("none", "stopB"):
+        return fault
+    if fault == "remove":                      # removes object o only
+        return "remove" if cls == "cli2" else "none"
+    # stopA / disc hit client cli and its connection only
+    return fault if cls == "o2rem" else "none"
 
 _probe_cls = None
 
@@ -110,7 +122,15 @@ def gen_scenario(rng, allow_defects=True):
     for c in calls:
         threads[rng.randrange(nthreads)].append(c)
     threads = [t for t in threads if t]
-    return {"threads": threads, "fault": fault, "prelocked": prelocked, "n": ncalls}
+    scn = {"threads": threads, "fault": fault, "prelocked": prelocked, "n": ncalls}
+    if rng.random() < 0.45:
+        # bystanders: calls that use another object and/or another client connection than the one the fault hits
+        by = []
+        for j in range(rng.choice([1, 2, 2, 3])):
+            by.append({"id": j, "cls": rng.choice(BY_CLASSES), "kind": rng.choice(["f", "f", "boom"]),
+                       "blocking": rng.random() < 0.6})
+        scn["by"] = by
+    return scn
 
 
 def features(scn):
@@ -154,6 +174,21 @@ def model_line(scn, cfgbits):
     return f"explore {cfgbits} {','.join(attrs)} {len(calls)} {','.join(outs)} {'|'.join(progs)}"
 
 
+def by_subscenarios(scn):
+    """one sub-scenario per bystander class: the class's calls (each in a thread of its own) + the projected fault"""
+    subs = {}
+    for cls in BY_CLASSES:
+        calls = [b for b in scn.get("by", []) if b["cls"] == cls]
+        if not calls:
+            continue
+        threads = [[{"id": k, "place": "loc" if cls == "o2loc" else "rem", "kind": b["kind"], "blocking": b["blocking"]}]
+                   for k, b in enumerate(calls)]
+        subs[cls] = ({"threads": threads, "fault": project_fault(scn["fault"], cls),
+                      "prelocked": bool(scn["prelocked"]) and cls == "cli2", "n": len(calls)},
+                     [b["id"] for b in calls])
+    return subs
+
+
 def run_real(scn, seed, policy="weighted", change_points=None, probe_after=True):
     """Run the scenario on the real code under the scheduler. Returns dict(vec, deadlock, problems, steps)."""
     from harness.simworld import run_scenario
@@ -164,7 +199,10 @@ def run_real(scn, seed, policy="weighted", change_points=None, probe_after=True)
 
     n = scn["n"]
     vec = ["-"] * n
+    by = scn.get("by", [])
+    bvec = ["-"] * len(by)
     futs = {}
+    bfuts = {}
     problems = []
     double_sets = []
 
@@ -261,6 +299,24 @@ def run_real(scn, seed, policy="weighted", change_points=None, probe_after=True)
                 for c, fut in pending:
                     vec[c["id"]] = classify(c, fut.wait)
             threads.append(w.spawn(caller, f"caller{ti}"))
+        if by:
+            srv.make_rpc_object("o2", _probe_class())
+            cli2 = w.context("cli2")
+            w.connect(cli2, srv)
+            for b in by:
+                ctx_ = {"o2loc": srv, "o2rem": cli, "cli2": cli2, "cli2o2": cli2}[b["cls"]]
+                p_b = ctx_.get_rpc_object_by_name("srv.o" if b["cls"] == "cli2" else "srv.o2")
+
+                def bystander(b=b, p_b=p_b):
+                    c = {"id": 100 + b["id"], "kind": b["kind"], "place": "loc" if b["cls"] == "o2loc" else "rem",
+                         "blocking": b["blocking"]}
+                    if b["blocking"]:
+                        bvec[b["id"]] = classify(c, lambda: do_call(p_b, c))
+                    else:
+                        fut = do_call(p_b, c)
+                        bfuts[b["id"]] = fut
+                        bvec[b["id"]] = classify(c, fut.wait)
+                threads.append(w.spawn(bystander, f"by{b['id']}"))
         f = scn["fault"]
         if f == "remove":
             srv.remove_rpc_object(p_loc)
@@ -312,6 +368,7 @@ def run_real(scn, seed, policy="weighted", change_points=None, probe_after=True)
     if out.budget:
         problems.append("step-budget")
     return {"vec": "".join(v if len(v) == 1 else "x" for v in vec), "raw": list(vec), "deadlock": out.deadlock,
+            "bvec": "".join(v if len(v) == 1 else "x" for v in bvec), "braw": list(bvec),
             "problems": problems, "steps": out.sched.steps if out.sched else 0,
             "loop_exc": [type(e).__name__ for e in (out.net.loop_exceptions if out.net else [])],
             "thread_errors": [f"{n}:{type(e).__name__}" for n, e in out.thread_errors]}
@@ -338,7 +395,22 @@ def oracle(scn, r):
             out.append(("other-call's-outcome", f"a call received {v}"))
         elif v.startswith("x:"):
             out.append((f"unexpected-outcome:{v[2:].split('(')[0]}", f"outcome {v} is neither own value/exception, locked nor delivery error"))
-    if r["deadlock"] or "-" in r["vec"]:
+    bnat = {"f": "v", "boom": "e"}
+    for b, v in zip(scn.get("by", []), r.get("braw", [])):
+        pf = project_fault(scn["fault"], b["cls"])
+        if v.startswith("crosstalk"):
+            out.append(("other-call's-outcome", f"bystander {b} received {v}"))
+        elif v.startswith("x:"):
+            out.append((f"unexpected-outcome:{v[2:].split('(')[0]}", f"bystander {b}: outcome {v}"))
+        elif v == "-":
+            cause = "own-context-stopped" if (pf == "stopA" and b["cls"] == "o2rem") else "bystander:" + b["cls"]
+            out.append(("call-waits-forever:" + cause, f"bystander call {b} has no outcome (fault {scn['fault']} seen as {pf}); "
+                                                       f"scheduler: {str(r['deadlock'])[:120]}"))
+        elif pf == "none" and v != ("l" if (scn["prelocked"] and b["cls"] == "cli2") else bnat[b["kind"]]) \
+                and not (ACTIVE_DEFECTS & set(feats)):
+            out.append(("bystander-affected:" + b["cls"], f"call {b} to another object / over another connection than the one hit by "
+                                                           f"fault {scn['fault']} ended with {v}, expected {bnat[b['kind']]}"))
+    if "-" in r["vec"] or (r["deadlock"] and "-" not in r.get("bvec", "")):
         # attribute every hanging call to a cause; one finding per distinct cause
         crashed = any("_RpcThread" in t for t in r["thread_errors"])
         has_funlock = "lock-handler-crash" in feats
@@ -417,7 +489,8 @@ class C01(Prop):
     lean_modules = ["QmiModel.Props.C01"]
     driver = "drv_c01"
     modelled_not_verified = [
-        "one object, one peer connection; other objects/connections are independent copies (isolation: C06)",
+        "the model has one object and one peer connection; calls to a second object and over a second client connection "
+        "('bystanders') are checked on the real code against an independent copy of the model under the projected fault",
         "pickle: a value either serialises or raises; asyncio: call_soon_threadsafe is FIFO, callbacks queued after stop() are dropped",
         "the OS socket (simulated network in the harness); random 64-bit request ids assumed distinct",
         "atomicity of model actions follows the locks in the code (_stop_lock, _cv, map locks); validated by outcome-set inclusion",
@@ -429,7 +502,9 @@ class C01(Prop):
         drv = LeanDriver(self.driver)
         scns = [normalise(gen_scenario(ctx.rng)) for _ in range(n_scen)]
         lines = [model_line(s, cfgbits) for s in scns]
-        uniq = sorted(set(lines))
+        subs = [by_subscenarios(s) for s in scns]
+        sublines = [{cls: model_line(sub, cfgbits) for cls, (sub, _) in sd.items()} for sd in subs]
+        uniq = sorted(set(lines) | {l for sl in sublines for l in sl.values()})
         answers = dict(zip(uniq, drv.run(uniq, timeout=1200)))
         sig_seen = {}
         for si, (scn, line) in enumerate(zip(scns, lines)):
@@ -457,6 +532,19 @@ class C01(Prop):
                     res.broken.append(Broken("correspondence", "Rpc.explore vs real outcome vector",
                                              f"real {r['vec']} not in model set {sorted(allowed)} (cfg {cfgbits})",
                                              case={"scn": scn, "seed": seed, "policy": policy}))
+                for cls, (sub, ids) in subs[si].items():
+                    sans = answers[sublines[si][cls]]
+                    sallowed = set(sans.split(" ")[0].split(";"))
+                    svec = "".join(r["bvec"][j] for j in ids)
+                    res.count("bystander_calls", len(ids))
+                    res.count("bystander_" + cls)
+                    if "BUDGET" in sallowed or sans.startswith("bad-op"):
+                        res.broken.append(Broken("correspondence", "drv_c01.explore", f"{sans} for {sublines[si][cls]}"))
+                    elif svec not in sallowed:
+                        res.broken.append(Broken("correspondence", "Rpc.explore vs real outcome vector (bystander class)",
+                                                 f"class {cls}: real {svec} not in model set {sorted(sallowed)} (fault {scn['fault']} "
+                                                 f"projected to {sub['fault']}, cfg {cfgbits})",
+                                                 case={"scn": scn, "seed": seed, "policy": policy}))
                 for sig, summ in oracle(scn, r):
                     if sig_seen.get(sig, 0) < 1:
                         sig_seen[sig] = sig_seen.get(sig, 0) + 1
